@@ -123,7 +123,7 @@ pub fn run(ctx: &mut Ctx) {
     crate::spec::assert_spec_matches::<V>(&rs);
     let quick = ctx.quick();
     let n = ctx.tier.pick(5, 6);
-    ctx.meta("rule", "cases: (input, tolerance, buffered set); inputs = documents of T∘E (known/unknown-size mixes, deep spines) with EVERY subset of the masters present in the document (+ one absent master) as buffered set, every single mutation of the smaller documents and every Σ string up to length n with a fixed family of buffered sets; strict and all-tolerant. Oracle: the buffered parse, with each Full replaced by Start/children/End, walked in lock-step against the unbuffered parse of the same bytes: equal items, equal offsets outside buffered masters, Full offset == flat Start offset, clean end iff clean end, error => prefix + error. Non-trivial: pairs emitting a Full with >= 1 child.");
+    ctx.meta("rule", "cases: (input, tolerance, buffered set); inputs = documents of T∘E (known/unknown-size mixes, deep spines) with EVERY subset of the masters present in the document (+ one absent master) as buffered set, every single mutation of the smaller documents, > 64 KiB buffer-boundary documents and every Σ string up to length n with a fixed family of buffered sets; strict and all-tolerant. Oracle: the buffered parse, with each Full replaced by Start/children/End, walked in lock-step against the unbuffered parse of the same bytes: equal items, equal offsets outside buffered masters, Full offset == flat Start offset, clean end iff clean end, error => prefix + error. Non-trivial: pairs emitting a Full with >= 1 child.");
     ctx.meta("bounds", &format!("documents <= {} elements, all subsets of present masters; Σ* length <= {}", ctx.tier.pick(5, 6), n));
     ctx.meta("assumptions", "end-of-stream closing left at its default (on): with it disabled a buffered master open at the end of input cannot be completed by definition");
     for c in ["full_items", "nested_full", "error_after_full", "end_queued_before_buffered_master", "unknown_size_buffered", "buffer_boundary_docs"] {
